@@ -258,7 +258,7 @@ class Ctx:
         self.tier = tier
         self.seed = seed
         self.rng = random.Random("%s-%s" % (prop_id, seed))
-        self.scale = scale if scale is not None else (20 if tier == "thorough" else 1)
+        self.scale = scale if scale is not None else (int(os.environ.get("VERIF_SCALE") or 60) if tier == "thorough" else 1)
         self.oracle_only = oracle_only
         self.model = Model()
         self.evaluations = 0
@@ -294,7 +294,7 @@ class Ctx:
     def n(self, quick, thorough=None):
         """budget helper"""
         if self.tier == "thorough":
-            return thorough if thorough is not None else quick * 20
+            return thorough if thorough is not None else quick * self.scale
         return quick if self.scale == 1 else quick * self.scale
 
 
